@@ -178,6 +178,33 @@ theorem loadPairs_saveMap (um : Nat) (m : List (Nat × Bal)) (hl : m.length < 2 
   rw [List.append_assoc, UtxoRec.readVLen_putULe m.length hl]
   exact loadRecs_save um m hk extra
 
+/-! ### the history event `.reload` (Model.Balances.relayout) is this round trip -/
+
+/-- the record as `OneAllAddrBal.Save` writes it: a map record's entries in Go's iteration order -/
+def asSaved (ord : List Inp) (b : Bal) : Bal := { b with unsp := savedOrder ord b }
+
+theorem wfBal_asSaved (ord : List Inp) (b : Bal) (h : WFBal b) : WFBal (asSaved ord b) := by
+  have hp := GocoinV.Proofs.C17.savedOrder_perm ord b
+  refine ⟨?_, ?_, ?_, h.val, h.amt, (hp.nodup_iff).2 h.nodup⟩
+  · intro e
+    have e' : savedOrder ord b = [] := e
+    rw [e'] at hp
+    exact h.ne (List.Perm.eq_nil (List.Perm.symm hp))
+  · show (savedOrder ord b).length < U64
+    rw [hp.length_eq]; exact h.len
+  · intro i hi
+    exact h.inps i ((hp.mem_iff).1 hi)
+
+theorem norm_asSaved (um : Nat) (ord : List Inp) (b : Bal) (h : b.unsp.Nodup) :
+    norm um (asSaved ord b) = relayout um ord b := by
+  have hp := GocoinV.Proofs.C17.savedOrder_perm ord b
+  have hn : (savedOrder ord b).Nodup := (hp.nodup_iff).2 h
+  unfold norm asSaved relayout
+  simp only []
+  by_cases hle : um ≤ (savedOrder ord b).length
+  · simp only [hle, decide_true, if_true, GocoinV.Proofs.C17.mapOfList_nodup hn]
+  · simp only [hle, decide_false, if_false]
+
 /-- every record of a file that `load_map` accepts is a real record (no nil pointer is stored any more) -/
 theorem loadRecs_all_some (um : Nat) : ∀ (n : Nat) (b : Bytes) (l : List (Nat × Option Bal)),
     loadRecs um n b = some l → l.length = n ∧ ∀ p ∈ l, p.2.isSome = true := by
